@@ -103,6 +103,37 @@ def _parent_store(eng, st, obj, old, new):
 
 P = ["C18", "C03"]
 
+
+def _node_ghost_init(eng, st, obj):
+    """a freshly constructed Node is the root of its own (singleton) tree"""
+    root = eng.heap_arr(st, "Node.rootOf", z3.IntSort())
+    st.heap["Node.rootOf"] = z3.Store(root, obj.ref, obj.ref)
+
+
+R.ghost_init["Node"] = _node_ghost_init
+
+FRESH_NODES = ("forall(v, implies(v in {d}, {d}[v] is not None and {d}[v].value == v and {d}[v].parent is None and rootOf({d}[v]) is {d}[v] "
+               "and fresh_node({d}[v])))")
+
+
+@R.spec
+def fresh_node(eng, st, n):
+    """allocated by this call"""
+    return z3.And(to_z3(n) >= st.old.alloc["pre:Node"], to_z3(n) < eng.alloc_bound(st, "Node"))
+
+
+R.contract("ComponentFinder.__init__",
+           params={"self": REF("ComponentFinder"), "values": LIST(INT)},
+           ensures=[("wf", "WF(self)"),
+                    ("domain", "forall(v, (v in self.nodes) == exists(k, 0 <= k and k < len(values) and values[k] == v))"),
+                    ("singletons", "forall(v, implies(v in self.nodes, rep(self, v) == v))")],
+           modifies=["ComponentFinder.nodes", "Node.value", "Node.parent"],
+           locals={"__comp0": DICT(INT, REF("Node"))},
+           loops={0: dict(index="i", inv=[("domain", "forall(v, (v in __comp0) == exists(k, 0 <= k and k < i and values[k] == v))"),
+                                           ("fresh", FRESH_NODES.format(d="__comp0"))])},
+           extra={"desugar_comprehensions": True, "allocates": ["Node"]},
+           props=P)
+
 R.contract("ComponentFinder._find_node",
            params={"self": REF("ComponentFinder"), "value": INT},
            returns=REF("Node"),
